@@ -81,7 +81,8 @@ def is_cache_name(name):
 
 
 ERR_TYPES = {"io": InjectedError, "conn": ConnectionError, "timeout": TimeoutError, "runtime": RuntimeError,
-             "value": ValueError, "os": OSError}
+             "value": ValueError, "os": OSError, "interrupted": InterruptedError, "blocking": BlockingIOError,
+             "perm": PermissionError, "eof": EOFError, "key": KeyError}
 
 
 class _QuietTqdm:
@@ -740,7 +741,7 @@ class World:
         fault = self.director.take_fault(PP_FAULTS, key, None)
         kind = fault["kind"] if fault else None
         if kind == "PP_ERR_BEFORE":
-            raise InjectedError("injected: post-processor failed before writing")
+            raise self._err_type()("injected: post-processor failed before writing")
         if kind == "PP_NOTFOUND":
             # the post-processor needs a side-car object (an index, a mask) from the same store and that one is
             # missing: the store's own not-found exception comes out of the post-processing step
@@ -754,14 +755,14 @@ class World:
             f.write(out[:half])
             f.flush()
             if kind == "PP_ERR_MID":
-                raise InjectedError("injected: post-processor failed part-way")
+                raise self._err_type()("injected: post-processor failed part-way")
             if kind == "PP_INTERRUPT_MID":
                 if self.sched.current is not self.sched.client:
-                    raise InjectedError("injected: post-processor failed part-way")
+                    raise self._err_type()("injected: post-processor failed part-way")
                 raise KeyboardInterrupt()
             f.write(out[half:])
         if kind == "PP_ERR_AFTER":
-            raise InjectedError("injected: post-processor failed after writing")
+            raise self._err_type()("injected: post-processor failed after writing")
         if kind == "PP_NOTFOUND_AFTER":
             from ocean_science_utilities.filecache.remote_resources import _RemoteResourceUriNotFound
             raise _RemoteResourceUriNotFound("injected: side-car object needed by the post-processor not found (after rewriting)")
